@@ -17,6 +17,7 @@ NTFNSIM_STUB = {
     "ProcessRelevantSpendTx, mempool spend notifier, delivery of block epochs, the btcd/neutrino notifiers": "not simulated",
 }
 NTFNSIM_ASSUME = [
+    "the dispatcher loop of the backend-glue arms is a mirror of BitcoindNotifier.notificationDispatcher/handleBlockConnected pinned by a hash of their source text; if the tree no longer has that text the two mirror-provenance findings are neither reported nor suppressed: such runs end unjudged (run_ended_unjudged)",
     "blocks that have ever had >= reorgSafetyLimit confirmations are never disconnected (limit drawn from {3,4,5,8}); at most limit-1 blocks are disconnected in a row",
     "the chain is valid: no transaction twice, no two conflicting spends, a child only after its parent",
     "a client's height hint is its promise that the tx/spend does not enter the chain below it; runs that break the promise on purpose (arm knob BadHints) only keep the safety checks for that request",
